@@ -354,7 +354,7 @@ type nodeObs struct {
 func (ln *liveNode) send(args [][]byte) (obs nodeObs, before, after dumpT) {
 	before = dumpStore(ln.st.RockDB)
 	idx0 := ln.nd.GetAppliedIndex()
-	reps, closed, err := ln.rc.do(args, 4*time.Second)
+	reps, closed, err := ln.rc.do(args, 2*time.Second)
 	if closed || err != nil {
 		ln.rc.c.Close()
 		for i := 0; i < 50; i++ {
